@@ -348,3 +348,10 @@ def test_c10_small_numpy_integer_index():
     a = xo.Float64[:](40)
     a[np.int8(20)] = 7.0
     assert a[20] == 7.0 and a[np.uint8(20)] == 7.0 and sum(a[i] for i in range(40)) == 7.0
+
+
+def test_c05_extents_as_small_numpy_integers():
+    a = xo.Float64[:, :](np.int8(20), np.int8(20))
+    assert tuple(int(s) for s in a._strides) == (160, 8) and a._size == 8 + 16 + 16 + 3200
+    a[19, 19] = 5.0
+    assert type(a)._from_buffer(a._buffer, a._offset)[19, 19] == 5.0
